@@ -129,9 +129,17 @@ def per_graph(snap):
 class SLock:
     """stands in for storage.lock: a real threading.Lock plus reporting to the scheduler"""
 
-    def __init__(self, eng):
+    def __init__(self, eng, real=None):
         self.eng = eng
-        self.real = threading.Lock()
+        self.real = real if real is not None else threading.Lock()
+
+    def __enter__(self):            # `with self.lock:` -- the exit goes to THIS object even if storage.lock is re-bound
+        self.acquire()
+        return True
+
+    def __exit__(self, *exc):
+        self.release()
+        return False
 
     def acquire(self, *a, **kw):
         eng = self.eng
@@ -141,9 +149,11 @@ class SLock:
                 eng.log.append((w.tid, 'A', None))
                 return True
             w.blocked = True
+            w.blocked_on = self
             eng.log.append((w.tid, 'B', None))
             eng.park(w)
             w.blocked = False
+            w.blocked_on = None
             if eng.abort:
                 raise Deadlock()
 
@@ -167,6 +177,7 @@ class Worker:
         self.eng, self.tid, self.ops = eng, tid, ops
         self.sem = threading.Semaphore(0)
         self.blocked = False
+        self.blocked_on = None
         self.finished = False
         self.pending = None
         self.results = []
@@ -225,6 +236,8 @@ class Engine:
         self.store = cls()
         self.lock = SLock(self)
         self.store.lock = self.lock
+        self.locks = [self.lock]     # every lock object the store has had during this run
+        self.rebound = []            # (grant index, thread) at which storage.lock was found re-bound
         self.codes = store_codes(cls)
         self.log = []
         self.lock_errors = []
@@ -243,8 +256,22 @@ class Engine:
         w.sem.acquire()
 
     def enabled(self):
-        free = not self.lock.real.locked()
-        return [w.tid for w in self.workers if not w.finished and (free or not w.blocked)]
+        return [w.tid for w in self.workers if not w.finished and
+                (not w.blocked or w.blocked_on is None or not w.blocked_on.real.locked())]
+
+    def check_lock_identity(self, step, tid):
+        """after every step: is storage.lock still the object installed at the start?  If the store replaced it
+        (assignment to self.lock, re-run of __init__), record it and wrap the new object so that scheduling stays
+        deterministic (threads queued on the old object stay queued on the OLD one, as in production)."""
+        cur = getattr(self.store, 'lock', None)
+        if cur is not self.lock:
+            self.rebound.append((step, tid))
+            if cur is not None and not isinstance(cur, SLock) and hasattr(cur, 'acquire'):
+                cur = SLock(self, real=cur)
+                self.store.lock = cur
+            self.lock = cur
+            if isinstance(cur, SLock):
+                self.locks.append(cur)
 
     def run(self, preempt, rng=None, max_steps=4000):
         """preempt: {grant index: tid}.  Default policy: thread 0 (setup) first; then keep running the current
@@ -283,6 +310,7 @@ class Engine:
             cur = t
             w.sem.release()
             self.main_sem.acquire()
+            self.check_lock_identity(step, t)
             step += 1
             if step > max_steps:
                 deadlock = True
@@ -297,8 +325,8 @@ def run_engine(flavour, thread_ops, preempt=None, rng=None, snap=False):
         w.thread.join(timeout=2)
     final = snapshot(flavour, eng.store)
     return {'log': eng.log, 'results': [w.results for w in eng.workers], 'deadlock': deadlock,
-            'lock_errors': eng.lock_errors, 'locked_at_end': eng.lock.real.locked(), 'final': final,
-            'grants': eng.trace}
+            'lock_errors': eng.lock_errors, 'locked_at_end': any(l.real.locked() for l in eng.locks), 'final': final,
+            'grants': eng.trace, 'rebound': eng.rebound}
 
 
 # ----------------------------------------------------------------------------------------------
@@ -327,6 +355,10 @@ def ir_lines(flavour):
                 walk(x)
         elif k == 'try':
             for x in s[2] + (s[3][1] if s[3] else []) + s[4]:
+                walk(x)
+        elif k == 'with':
+            lock_lines.add(s[1])
+            for x in s[2]:
                 walk(x)
     for m in d['methods'].values():
         walk(m)
@@ -359,6 +391,8 @@ def line_acts(flavour):
             [walk(x) for x in s[3]]
         elif k == 'try':
             [walk(x) for x in s[2] + (s[3][1] if s[3] else []) + s[4]]
+        elif k == 'with':
+            [walk(x) for x in s[2]]
     if I:
         for m in I[flavour]['methods'].values():
             walk(m)
@@ -475,6 +509,11 @@ def mirror(s_ir, path):
                 o = block(s[3][1])
             o3 = block(s[4])
             return o if o3 == 'n' else o3
+        if k == 'with':
+            evs.append((s[1], 1))
+            o = block(s[2])
+            evs.append((s[1], 2))
+            return o
         if k == 'ret':
             if fp(s[3]) and pop():
                 evs.append((s[1], 0))
@@ -554,6 +593,7 @@ def build_obs(flavour, thread_ops, raw):
         out_calls.append(row)
     return {'calls': out_calls, 'sched': sched, 'final': raw['final'], 'deadlock': raw['deadlock'],
             'lock_errors': raw['lock_errors'], 'locked_at_end': raw['locked_at_end'],
+            'rebound': raw.get('rebound', []),
             'blocked': sum(1 for _, k, _ in raw['log'] if k == 'B'),
             'lock_order': [(t, k) for t, k, _ in raw['log'] if k in ('A', 'C')]}
 
@@ -592,6 +632,10 @@ def serial_replay(flavour, thread_ops, obs):
 
 def oracle_common(flavour, thread_ops, obs, check_serial):
     for e in obs['lock_errors']:
+        if obs.get('rebound'):
+            return ('lock error: %s -- storage.lock was re-bound to a NEW lock object at step %d by thread %d while '
+                    'another call was queued on / using the old one (it later releases the new, never acquired lock)'
+                    % (e, obs['rebound'][0][0], obs['rebound'][0][1]))
         return 'lock error: ' + e
     if obs['deadlock']:
         return 'a caller blocked forever on the store lock (lock left held)'
@@ -614,6 +658,8 @@ def oracle_common(flavour, thread_ops, obs, check_serial):
             if c['out'].startswith('exc:RuntimeError') and 'lock' in c.get('msg', ''):
                 return 'call %s failed with a lock error' % c['op']['m']
     if obs['locked_at_end']:
+        if obs.get('rebound'):
+            return 'a lock object of the store is still held after all calls finished (storage.lock was re-bound during the run; the old lock was orphaned)'
         return 'lock held after all calls finished'
     # returned ids fresh: never an id that was already a node of that graph (shared: of the store)
     for tid, row in enumerate(obs['calls']):
@@ -753,7 +799,7 @@ def slim(obs):
     """json-able, small"""
     return {'calls': [[{k: v for k, v in c.items() if k not in ('before', 'after')} for c in row] for row in obs['calls']],
             'sched': obs['sched'], 'final': obs['final'], 'deadlock': obs['deadlock'], 'lock_errors': obs['lock_errors'],
-            'locked_at_end': obs['locked_at_end']}
+            'locked_at_end': obs['locked_at_end'], 'lock_rebound_at': obs.get('rebound', [])}
 
 
 # ----------------------------------------------------------------------------------------------
@@ -935,12 +981,20 @@ SCENARIOS = [
     ('delete-reimport-vs-blank', [{'m': 'add_graph', 'g': 'g1', 'k': 2, 'bad': None}],
      [[{'m': 'del_graph', 'g': 'g1'}, {'m': 'add_graph', 'g': 'g1', 'k': 1, 'bad': None}],
       [{'m': 'add_blank_node_to_graph', 'g': 'g1'}, {'m': 'add_graph_direct', 'g': 'g2', 'k': 1, 'bad': None}]]),
+    # T1 inside del_all_graphs while T2 is queued on acquire (and the other way round)
+    ('delete-all-vs-queued', [{'m': 'add_graph', 'g': 'g1', 'k': 1, 'bad': None}],
+     [[{'m': 'del_all_graphs', 'g': 'g1'}, {'m': 'add_blank_node_to_graph', 'g': 'g1'}],
+      [{'m': 'add_blank_node_to_graph', 'g': 'g1'}, {'m': 'add_graph', 'g': 'g2', 'k': 1, 'bad': None}]]),
 ]
 SCENARIOS3 = [
     ('three-blank', [{'m': 'add_graph', 'g': 'g1', 'k': 1, 'bad': None}],
      [[{'m': 'add_blank_node_to_graph', 'g': 'g1'}, {'m': 'add_blank_node_to_graph', 'g': 'g2'}],
       [{'m': 'add_blank_node_to_graph', 'g': 'g1'}, {'m': 'add_graph', 'g': 'g2', 'k': 1, 'bad': None}],
       [{'m': 'add_blank_node_to_graph', 'g': 'g2'}, {'m': 'add_blank_node_to_graph', 'g': 'g1'}]]),
+    ('delete-all-among-three', [{'m': 'add_graph', 'g': 'g1', 'k': 1, 'bad': None}],
+     [[{'m': 'del_all_graphs', 'g': 'g1'}],
+      [{'m': 'add_blank_node_to_graph', 'g': 'g1'}, {'m': 'extract_graph', 'g': 'g1'}],
+      [{'m': 'add_graph', 'g': 'g2', 'k': 1, 'bad': None}]]),
 ]
 
 
@@ -1017,6 +1071,9 @@ class Sched(Stream):
                 [walk(x) for x in s[3]]
             elif k == 'try':
                 [walk(x) for x in s[2] + (s[3][1] if s[3] else []) + s[4]]
+            elif k == 'with':
+                rel.add(s[1])
+                [walk(x) for x in s[2]]
         for m in I[flavour]['methods'].values():
             walk(m)
         return rel
